@@ -42,7 +42,10 @@ FOREIGN_ATTRS = ["*.csv text eol=lf", "*.png binary\n", "*.md diff=markdown\n*.t
                  # rules that mention nbdime's drivers without routing *.ipynb to them: commented out by the user after an earlier enable /
                  # restricted to one directory
                  "# *.ipynb\tdiff=jupyternotebook\n# *.ipynb\tmerge=jupyternotebook\n",
-                 "docs/*.ipynb diff=jupyternotebook merge=jupyternotebook\n"]
+                 "docs/*.ipynb diff=jupyternotebook merge=jupyternotebook\n",
+                 # another tool's rules for the same pattern and the same attributes (what `nbstripout --install --attributes` writes; a
+                 # user switching notebook diffs off)
+                 "*.ipynb filter=nbstripout\n*.ipynb diff=ipynb\n", "*.ipynb -diff -merge\n"]
 
 
 def budget(tier):
@@ -281,7 +284,14 @@ def check_step(out, sb, cmd, before, after, label):
         if enable:
             attr = "diff" if c == "diffdriver" else "merge"
             want = "x.ipynb: %s: jupyternotebook" % attr
-            if want not in after["check_attr"]:
+            # a rule of the repository's own attributes file beats the global one: a global enable cannot be asked to route
+            # notebooks that the repository routes elsewhere
+            shadowed = scope == "global" and any(
+                l.split()[:1] == [b"*.ipynb"] and any(f.lstrip(b"-!").split(b"=")[0] == attr.encode() for f in l.split()[1:])
+                for l in (after["attrs_local"] or b"").splitlines())
+            if shadowed:
+                out.count("global_enable_shadowed_by_a_repository_rule")
+            elif want not in after["check_attr"]:
                 out.fail("enable_routes_notebooks", "check_attr_does_not_route", c, detail=dict(detail, check_attr=after["check_attr"][:200]))
     # foreign attribute rules still effective
     for line in before["check_attr"].splitlines():
